@@ -247,6 +247,7 @@ class Ev:
         self.returns: list[Event] = []
         self.ctypes = ctypes or {}
         self.fwd: dict = {}                # store-to-load forwarding for simple array cells: target key -> (base key, value)
+        self._lambdas = {}
         self.opaque = set(opaque)          # local names kept as atoms instead of being inlined
         self.defs: dict = {}               # ('local', name, version) -> defining value
         self._versions: dict = {}
@@ -351,6 +352,11 @@ class Ev:
         self.env[st.name] = P.atom(("localcls", st.name))
 
     def s_Assign(self, st):
+        if isinstance(st.value, ast.IfExp) and len(st.targets) == 1 and isinstance(st.targets[0], (ast.Attribute, ast.Subscript, ast.Name)):
+            # x = A if c else B   is   if c: x = A  else: x = B   (one guarded assignment / store per alternative)
+            new = ast.If(st.value.test, [ast.copy_location(ast.Assign([st.targets[0]], st.value.body), st)],
+                         [ast.copy_location(ast.Assign([st.targets[0]], st.value.orelse), st)])
+            return self.stmt(ast.fix_missing_locations(ast.copy_location(new, st)))
         v = self.ev(st.value)
         for t in st.targets:
             self.assign(t, v, st)
@@ -380,9 +386,16 @@ class Ev:
             star = any(isinstance(e, ast.Starred) for e in t.elts)
             for i, e in enumerate(t.elts):
                 if isinstance(e, ast.Starred):
-                    self.assign(e.value, P.atom(("star", v, i)), st)
+                    if i == len(t.elts) - 1:
+                        # a, *rest = seq: rest holds seq[1:]
+                        self.assign(e.value, self.subscript(v, (P.atom(("slice", P.const(i), NONE, NONE)),)), st)
+                    else:
+                        self.assign(e.value, P.atom(("star", v, i)), st)
                 elif items is not None and len(items) == len(t.elts) and not star:
                     self.assign(e, items[i], st)
+                elif star and any(isinstance(x, ast.Starred) for x in t.elts[:i]):
+                    # a, *rest, z = seq: the targets after the star count from the end
+                    self.assign(e, self.subscript(v, (P.const(i - len(t.elts)),)), st)
                 else:
                     self.assign(e, self.subscript(v, (P.const(i),)), st)
         else:
@@ -471,6 +484,10 @@ class Ev:
                 self.emit("delete", st, target=self.ev(t, store=True))
 
     def s_Return(self, st):
+        if isinstance(st.value, ast.IfExp):
+            # return A if c else B   is   if c: return A  else: return B
+            new = ast.If(st.value.test, [ast.copy_location(ast.Return(st.value.body), st)], [ast.copy_location(ast.Return(st.value.orelse), st)])
+            return self.stmt(ast.fix_missing_locations(ast.copy_location(new, st)))
         v = self.ev(st.value) if st.value is not None else NONE
         self.emit("return", st, value=v)
 
@@ -538,6 +555,18 @@ class Ev:
                 isinstance(e, ast.Constant) or (isinstance(e, ast.UnaryOp) and isinstance(e.operand, ast.Constant))
                 for e in node.elts):
             return [self.ev(e) for e in node.elts]
+        if isinstance(node, ast.Call) and isinstance(node.func, ast.Name) and node.func.id == "enumerate" and "enumerate" not in self.env \
+                and 1 <= len(node.args) <= 2 and all(k.arg == "start" for k in node.keywords) and len(node.args) + len(node.keywords) <= 2:
+            # enumerate over a literal: (0, first), (1, second), ...
+            inner = self._literal_iter(node.args[0])
+            sn = node.args[1] if len(node.args) == 2 else (node.keywords[0].value if node.keywords else None)
+            start = 0 if sn is None else (sn.value if isinstance(sn, ast.Constant) and type(sn.value) is int else None)
+            if inner is not None and start is not None:
+                return [P.atom(("tuple", (P.const(k + start), v))) for k, v in enumerate(inner)]
+            return None
+        if isinstance(node, ast.Constant) and isinstance(node.value, str) and 1 <= len(node.value) <= 6:
+            # for c in "xyz": the characters, in order
+            return [self.ev(ast.Constant(c)) for c in node.value]
         if isinstance(node, ast.Call) and isinstance(node.func, ast.Name) and node.func.id == "range" \
                 and node.func.id not in self.env and not node.keywords:
             vals = [self.ev(a).const_value() for a in node.args]
@@ -974,6 +1003,27 @@ class Ev:
                     if inner_items is not None and k.denominator == 1 and -len(inner_items) <= k < len(inner_items):
                         return P.atom(("call", ba[1], (inner_items[int(k)],)))
                     return P.atom(("call", ba[1], (P.atom(("sub", ba[2][0], idx)),)))
+            if ba and ba[0] == "sub" and len(ba[2]) == 1 and len(idx) == 1:
+                # seq[a:b][k] == seq[a + k] and seq[a:b][c:] == seq[a + c : b] for non-negative constants (no step)
+                inner = ba[2][0].as_atom()
+                if inner and inner[0] == "slice" and inner[3].key() == "None":
+                    lo = 0 if inner[1].key() == "None" else inner[1].const_value()
+                    hi = None if inner[2].key() == "None" else inner[2].const_value()
+                    if lo is not None and lo >= 0 and lo.denominator == 1 and (hi is None or (hi >= 0 and hi.denominator == 1)) \
+                            and (inner[2].key() == "None" or hi is not None):
+                        k = idx[0].const_value()
+                        if k is not None and k >= 0 and k.denominator == 1 and (hi is None or lo + k < hi):
+                            return self.subscript(ba[1], (P.const(int(lo + k)),))
+                        o = idx[0].as_atom()
+                        if o and o[0] == "slice" and o[3].key() == "None" and o[2].key() == "None":
+                            c = 0 if o[1].key() == "None" else o[1].const_value()
+                            if c is not None and c >= 0 and c.denominator == 1:
+                                return self.subscript(ba[1], (P.atom(("slice", P.const(int(lo + c)), inner[2], NONE)),))
+            if ba and ba[0] == "str" and len(idx) == 1 and idx[0].const_value() is not None:
+                # "xyz"[1] is "y"
+                k = idx[0].const_value()
+                if k.denominator == 1 and -len(ba[1]) <= k < len(ba[1]):
+                    return P.atom(("str", ba[1][int(k)]))
             items = seq_items(base)
             if items is not None and len(idx) == 1:
                 c = idx[0].const_value() if isinstance(idx[0], P) else None
@@ -1002,6 +1052,16 @@ class Ev:
         args = []
         for a in n.args:
             args.append(self.ev(a))
+        lam = self._lambdas.get(callee.key()) if callee.as_atom() and callee.as_atom()[0] == "lambda" else None
+        if lam is not None and not n.keywords and len(args) == len(lam.args.posonlyargs + lam.args.args) \
+                and not any(isinstance(a, ast.Starred) for a in n.args):
+            # (lambda p: f(p))(x) is f(x): the body evaluated with the parameters bound to the arguments (free names late-bound, as in Python)
+            saved = dict(self.env)
+            for a, v in zip(lam.args.posonlyargs + lam.args.args, args):
+                self.env[a.arg] = v
+            res = self.ev(lam.body)
+            self.env = saved
+            return res
         kwargs = tuple(sorted(((k.arg or "**", self.ev(k.value)) for k in n.keywords), key=lambda t: t[0]))
         args = tuple(args)
         res = self.canon_call(callee, args, kwargs, n)
@@ -1020,6 +1080,14 @@ class Ev:
         if name in ("tuple", "list") and len(args) == 1 and not kwargs and args[0].as_atom() and args[0].as_atom()[0] == "tuple":
             # tuple([a, b]) / list((a, b)) of a literal is the literal
             return args[0]
+        if ca and ca[0] == "attr" and ca[2] == "group" and len(args) == 1 and not kwargs and args[0].const_value() is not None \
+                and args[0].const_value().denominator == 1 and args[0].const_value() >= 1:
+            # m.group(k) of a match object is m.groups()[k - 1]
+            return self.subscript(P.atom(("call", P.atom(("attr", ca[1], "groups")), ())), (P.const(int(args[0].const_value()) - 1),))
+        if name == "slice" and 1 <= len(args) <= 3 and not kwargs:
+            # slice(a, b) bound to a local and used as a subscript is a[a:b]
+            lo, hi, st = (NONE, args[0], NONE) if len(args) == 1 else (args[0], args[1], args[2] if len(args) == 3 else NONE)
+            return P.atom(("slice", lo, hi, st))
         if name == "dict" and not args and kwargs:
             # dict(a=1, b=2) is the literal {"a": 1, "b": 2}
             return P.atom(("dict", tuple((P.atom(("str", k)), v) for k, v in kwargs)))
@@ -1113,7 +1181,10 @@ class Ev:
         body = self.ev(n.body)
         del self.events[nev:]
         self.env = saved
-        return P.atom(("lambda", len(names), body))
+        res = P.atom(("lambda", len(names), body))
+        if not (n.args.vararg or n.args.kwarg or n.args.defaults or n.args.kw_defaults or n.args.kwonlyargs):
+            self._lambdas[res.key()] = n
+        return res
 
     def _comp(self, n, elts):
         # a list/tuple comprehension over a short literal is unrolled into a tuple of its items
